@@ -60,6 +60,7 @@ def check(reg, tier):
     _calc_theory_contract(reg)
     _name_checks(reg)
     _set_param_contract(reg)
+    _set_dispersion_contract(reg)
     _convenience_contract(reg)
     reg.assume("weights.get_weights replaced by its contract (C02): returns two fresh arrays")
     reg.assume("parameter tables of the builtin models are data facts from the live modules")
@@ -656,3 +657,67 @@ def _convenience_replay():
     want = np.asarray(DirectModel(d, core.load_model("sphere"))(radius=120.0))
     return not np.allclose(got, want, rtol=1e-12), {"call": "Iqxy('sphere', qx, qy, dqx=wide, dqy=narrow)",
                                                     "real": got.tolist(), "spec_DirectModel_on_Data2D": want.tolist()}
+
+
+def _set_dispersion_contract(reg):
+    """SasviewModel.set_dispersion: accepted exactly for the dispersible parameters of the model (the keys of the
+    dispersion table); any other name - unknown, or a parameter that cannot be dispersed - raises ValueError and adds
+    no entry (otherwise setParam would afterwards accept '<name>.width' for it)."""
+    import sasmodels.sasview_model as live
+    fn = "sasmodels.sasview_model.SasviewModel.set_dispersion"
+    for name, legal in (("radius", True), ("length", True), ("sld", False), ("scale", False), ("bogus", False)):
+        def body(it, name=name, legal=legal):
+            def disp():
+                return it.new_dict({"width": (True, 0.0), "npts": (True, 35), "nsigmas": (True, 3.0), "type": (True, "gaussian")})
+            dispersion = it.new_dict({"radius": (True, disp()), "length": (True, disp())})
+            params = it.new_dict({"radius": (True, 50.0), "length": (True, 400.0), "sld": (True, 1.0), "scale": (True, 1.0)})
+            before = set(dispersion.entries)
+            selfo = it.new_obj(live.SasviewModel, {"dispersion": dispersion, "params": params}, "SasviewModel")
+            newpars = it.new_dict({"width": (True, Sym(z3.Real("w"))), "npts": (True, 7), "nsigmas": (True, 2.0),
+                                   "type": (True, "rectangle")})
+            disperser = it.new_obj(None, {"get_pars": Summary(lambda it_, a, k: newpars, "Dispersion.get_pars", contract=False)},
+                                   "disperser")
+            f = it.get_func("sasmodels.sasview_model", "SasviewModel.set_dispersion")
+            raised = None
+            try:
+                it.call(f, [selfo, name, disperser])
+            except IRaise as exc:
+                raised = exc.value
+            after = set(dispersion.entries)
+            rp = lambda mdl=None: _set_dispersion_replay()
+            if legal:
+                reg.prove("%s.set_dispersion.dispersible_parameter_gets_the_new_table.%s" % (PROP, name), it.pc,
+                          z3.BoolVal(bool(raised is None and after == before and dispersion.entries[name][1] is newpars)),
+                          function=fn, replay=rp)
+            else:
+                reg.prove("%s.set_dispersion.other_names_are_refused_and_add_no_entry.%s" % (PROP, name), it.pc,
+                          z3.BoolVal(bool(isinstance(raised, ValueError) and after == before)), function=fn, replay=rp)
+        it = Interp(reg)
+        it.poison_one_arm = False
+        try:
+            it.run_paths(body)
+        except OutsideSubset as exc:
+            reg.undecided("%s.set_dispersion.engine.%s" % (PROP, name), "outside subset: %s" % exc, function=fn)
+
+
+def _set_dispersion_replay():
+    from sasmodels.sasview_model import make_model_from_info
+    from sasmodels.core import load_model_info
+    from sasmodels import weights
+    m = make_model_from_info(load_model_info("cylinder"))()
+    out, bad = {}, False
+    for name in ("sld", "scale", "bogus"):
+        try:
+            m.set_dispersion(name, weights.GaussianDispersion())
+            out[name] = "accepted"
+            bad = True
+        except ValueError:
+            out[name] = "ValueError"
+    try:
+        m.setParam("sld.width", 0.3)
+        out["then setParam('sld.width')"] = "accepted"
+        bad = True
+    except ValueError:
+        out["then setParam('sld.width')"] = "ValueError"
+    return bad, {"call": "SasviewModel(cylinder).set_dispersion(<non-dispersible or unknown name>, GaussianDispersion())",
+                 "real": out, "spec": "ValueError"}
